@@ -12,6 +12,7 @@
 """
 import ast as _ast
 
+import os
 from .common import *   # noqa: F401,F403
 from . import frames, C11, C17, C07, C20, reader
 from pyvc.values import real_val
@@ -110,9 +111,51 @@ def ground_callsites(pr, repo):
                 if isinstance(n, _ast.Call) and isinstance(n.func, _ast.Attribute) and n.func.attr == 'orthogonal':
                     sites.append('%s.%s' % (m.name, fname))
     want = ['propka.protonate.Protonate.tetrahedral', 'propka.protonate.Protonate.trigonal']
-    pr.add(Ground('HY: Vector.orthogonal() (not equivariant) is called only from the 1-bond branches of trigonal/tetrahedral - the '
-                  'terminal rotatable hydrogen the property excludes', sorted(sites) == want, detail=str(sites), kind='aux',
+    pr.add(Ground('HY: Vector.orthogonal() (not equivariant) is called only from the 1-bond branches of trigonal/tetrahedral (terminal '
+                  'rotatable hydrogens)', sorted(sites) == want, detail=str(sites), kind='aux',
                   backend='frame-checker'))
+    # ... which the property excuses for hetero groups only.  Nothing in the 1-bond trigonal branch asks what kind of atom it is: a
+    # backbone nitrogen whose preceding residue is missing (chain break) has CA as its only neighbour and gets its amide hydrogen from
+    # orthogonal() as well - known finding D16 (replayed on the real code on every run)
+    src = _ast.unparse(repo.func('propka.protonate.Protonate.trigonal').node)
+    guarded = 'hetatm' in src or '.type' in src
+    pr.add(Ground('HY(property form): a hydrogen built on an amino-acid atom never takes its direction from Vector.orthogonal() - also '
+                  'after a chain break', guarded or 'orthogonal' not in src, kind='top', backend='frame-checker',
+                  detail='Protonate.trigonal, 1-bond branch: "else: axis = avec.orthogonal()" is reached by a backbone N after a chain break',
+                  replay=CHAIN_BREAK_REPLAY % {'verif': os.path.dirname(os.path.dirname(os.path.abspath(__file__)))}))
+
+
+CHAIN_BREAK_REPLAY = r'''
+import sys, logging
+sys.path.insert(0, %(verif)r)
+logging.disable(logging.CRITICAL)
+from props import native, C04
+bad = C04.chain_break_differences()
+print('\n'.join(bad) if bad else 'identical in all poses')
+sys.exit(1 if bad else 0)
+'''
+
+
+def chain_break_differences(max_poses=6):
+    """1HPX (amino-acid part) with residue A 26 removed: the amide hydrogen of GLY 27 A, hydrogen-bond partner of ASP 25 A, is then
+    built on a nitrogen with a single neighbour.  Returns the differences between the original pose and moved copies."""
+    from . import native
+    lines = [l for l in native.pdb_lines('1HPX') if not l.startswith('HETATM')
+             and not (l[:6] == 'ATOM  ' and l[21] == 'A' and int(l[22:26]) == 26)]
+    base = native.record(native.run_text(lines))
+    Ps = C17.perms24()
+    out = []
+    for P_ in Ps[1:1 + max_poses]:
+        moved = []
+        for l in lines:
+            if l[:6] in ('ATOM  ', 'HETATM'):
+                w = C17.apply(P_, [float(l[30:38]), float(l[38:46]), float(l[46:54])])
+                l = l[:30] + '%8.3f%8.3f%8.3f' % (w[0] + 3.0, w[1] - 7.0, w[2] + 11.0) + l[54:]
+            moved.append(l)
+        d = native.diff_records(base, native.record(native.run_text(moved)), tol=0.02, keys=('pka',), dets=False)
+        if d:
+            out.append('pose %r: %s' % (P_, d[:2]))
+    return out
 
 
 def task_group_centres(pr, repo):
@@ -247,6 +290,11 @@ def task_backbone_two_runs(pr, repo):
 
 
 def run(pr, repo):
+    pr.level = 'other'
+    pr.explanation = ('deductive core (VC, ring identities, frame census) plus bounded pose monitor; level "other" because one clause of '
+                      'the property does NOT hold on this tree (recorded known finding D16: the amide hydrogen of a backbone nitrogen that '
+                      'follows a chain break is built with the frame-dependent Vector.orthogonal()): its property-form obligation is '
+                      'refuted and replayed on every run and reported as KNOWN-FINDING, so discharged < obligations')
     tasks = [(task_invariance, ()), (C11.task_cell_lemma, ()), (C11.task_offsets, ()), (C11.task_check_distance, ()), (C11.task_plumbing, ()),
              (C11.task_boxes_pair, ('S', 'S', False, (0,))), (C17.task_equivariance, ()), (C17.task_add_proton, ()),
              (C17.task_orthogonal, ()), (task_group_centres, ()), (C20.task_rotation, (), 'support'), (task_backbone_two_runs, ()),
@@ -343,6 +391,17 @@ def bounded(pr):
             if bad and len(viol) < 3:
                 viol.append({'what': '%s with supplied (non-ideal) hydrogens, --keep-protons, pose %r + %r: %s' % (name, P_, t, bad[:2]),
                              'replay': None})
+    # an amino-acid structure with a chain break: the nitrogen after the gap has one neighbour only (known finding D16)
+    ev += 1
+    classes.add('chain break')
+    try:
+        cb = chain_break_differences(3 if pr.tier == 'quick' else 23)
+    except Exception as e:    # noqa
+        cb = ['%s: %s' % (type(e).__name__, e)]
+    if cb:
+        viol.append({'what': '1HPX (amino-acid part) with residue A 26 removed - hydrogen built on the backbone N after a chain break: '
+                             'moved copies differ: %s' % cb[:2],
+                     'replay': CHAIN_BREAK_REPLAY % {'verif': os.path.dirname(os.path.dirname(os.path.abspath(__file__)))}})
     pr.bounded.append({'name': 'C04-monitor: rotated/translated copies of amino-acid structures', 'evaluations': ev,
                        'distinct_nontrivial': len(classes), 'bound': '%d structures x %d poses' % (len(names), len(poses)),
                        'rule': 'bonds, groups, desolvation, buried fractions exact (1e-9); pKa within 0.02 (hydrogen coordinates are rounded '
